@@ -234,10 +234,33 @@ def op_manager_roundtrip(w, ins):
     for s in w.slots_of(m):
         if w.den(tmp, s.ref) != s.tt:
             w.fail('wrong_result', 'reference denotes another function in the reloaded manager', tags)
-    # the copy can go on working: one operation, then release its references
-    for s in w.slots_of(m):
-        nb.decref(s.ref)
-    del tmp, nb
+    # "reproduces the manager": the reloaded manager can go on working.  It
+    # replaces M1 when nobody holds M1 (its counts already include one
+    # reference per handle on M0, so each of those is a handle on it too);
+    # otherwise it does a few operations here and is released.
+    if m == 0 and len(w.mgrs) > 1 and not w.slots_of(1):
+        w.finalize()
+        tmp.idx = 1
+        tmp.term_base = g.term_base
+        w.mgrs[1] = tmp
+        for s in list(w.slots_of(0)):
+            w.add_slot(1, s.ref, s.tt)
+        w.touch()
+        w.stats['manager_roundtrip_adopted'] += 1
+    else:
+        sl = w.slots_of(m)
+        T = w.tt
+        for i in range(min(3, len(sl))):
+            a_, b_ = sl[i], sl[(i * 7 + 3) % len(sl)]
+            ok, v = call(w, nb.apply, 'xor', a_.ref, b_.ref)
+            if not ok:
+                w.fail('exception:' + v[0], f'reloaded manager: apply raised {v[0]}: {v[1]}', tags)
+            tmp.snap = None
+            if w.den(tmp, v) != (a_.tt ^ b_.tt):
+                w.fail('wrong_result', 'reloaded manager: apply returned a wrong function', tags)
+        for s in w.slots_of(m):
+            nb.decref(s.ref)
+        del tmp, nb
     w.stats['manager_roundtrip'] += 1
 
 
